@@ -128,6 +128,13 @@ func (w *histWorld) Gen(seed uint64, tier string) *Plan {
 	}
 	ci, burst := 0, 0
 	for id := 0; id < nOps; id++ {
+		if id == 0 && hugeFill == 0 && !w.count && !w.c15 && (familyOf(cfg.Kind) == "list" || familyOf(cfg.Kind) == "set") && r.P(1, 6) {
+			// the container starts from values passed to its constructor (none, a few, or more than a hundred)
+			op := Op{ID: 0, N: "New", A: genIdxs(r, []int{0, 1, 3, 9, 70, 130}[r.Intn(6)], cfg.Dom)}
+			s.ModelApply(op)
+			p.Ops = append(p.Ops, op)
+			continue
+		}
 		if id == 0 && hugeFill > 0 {
 			op := Op{ID: 0, N: "Fill", A: []int{hugeFill, r.Intn(1000)}}
 			s.ModelApply(op)
